@@ -222,6 +222,15 @@ int main(int argc, char** argv) {
     };
     rec(0);
     if (done) rep.bounds_completed.push_back("rect g=" + std::to_string(g) + " nsub=" + std::to_string(nsub));
+  } else if (scope == "subsets") {
+    // every non-empty subset (list order kept) of a fixed list of rectangles as subjects, no clip: the neighbourhood of an input found
+    // outside the enumerated families (see known finding D8-residual)
+    Paths R = parse_paths(a.opt("rects", "")); if (R.empty()) { fprintf(stderr, "--rects missing\n"); return 2; }
+    u64 total = (u64)1 << R.size(); bool done = true;
+    for (u64 m = 1; m < total; ++m) { if (!rep.mine(m)) continue; if (rep.out_of_time()) { done = false; break; }
+      Paths S; for (size_t i = 0; i < R.size(); ++i) if (m >> i & 1) S.push_back(R[i]);
+      check_input(cx, S, Paths(), Paths()); if (m % 16 == 1) rep.sample("S=" + pstr(S)); }
+    if (done) rep.bounds_completed.push_back("all " + std::to_string(total - 1) + " non-empty subsets of " + std::to_string(R.size()) + " rectangles");
   } else if (scope == "cells") {
     cells_scope(cx, a, rep);
   } else { fprintf(stderr, "unknown scope\n"); return 2; }
